@@ -798,10 +798,10 @@ class Context:
                 # characters alone
                 return '"' + text.translate(_JSON_ESCAPES) + '"'
 
-            # JSON text of a JS value; None where there is none (undefined)
+            # JSON text of a JS value; None where there is none (undefined,
+            # functions): the holder decides what that means - null in an array,
+            # no property in an object, undefined at the root
             def serialize(v):
-                if v is UNDEFINED:
-                    return None  # Will be filtered out for object properties
                 if v is NULL:
                     return "null"
                 if isinstance(v, bool):
@@ -815,7 +815,7 @@ class Context:
                 if isinstance(v, JSArray):
                     # For arrays, undefined becomes null
                     return "[" + ",".join(serialize(e) or "null" for e in v._elements) + "]"
-                if isinstance(v, JSObject):
+                if isinstance(v, JSObject) and not isinstance(v, JSCallableObject):
                     # For objects, skip undefined values
                     members = []
                     for k, val in v._properties.items():
@@ -823,9 +823,10 @@ class Context:
                         if text is not None:
                             members.append(quote(k) + ":" + text)
                     return "{" + ",".join(members) + "}"
-                return "null"
+                return None
 
-            return serialize(value) or "null"
+            text = serialize(value)
+            return UNDEFINED if text is None else text
 
         json_obj.set("parse", parse_fn)
         json_obj.set("stringify", stringify_fn)
